@@ -94,10 +94,11 @@ class NumTok:
         raise Unsupported("slicing a numeric token")
 
     def __format__(self, spec):
-        return "0" * self.pad + "<n>"
+        t = z3.simplify(self.n)
+        return "0" * self.pad + (str(t.as_long()) if z3.is_int_value(t) else f"<{t}>")
 
     def __str__(self):
-        return "0" * self.pad + "<n>"
+        return format(self, "")
 
     def __getattr__(self, nm):
         raise Unsupported(f"str method {nm!r} on a numeric token is not modelled")
@@ -121,6 +122,15 @@ class Name:
         return "_".join(str(t) for t in self.toks)
 
     __str__ = lambda self: format(self, "")
+
+    # a name can be put into sets / used as a dict key like the string it stands for (its numbers rendered as <variable>)
+    def __hash__(self):
+        return hash(format(self, ""))
+
+    def __eq__(self, o):
+        if isinstance(o, (str, Name)):
+            return format(self, "") == format(o, "")
+        return NotImplemented
 
     def __getattr__(self, nm):
         raise Unsupported(f"str method {nm!r} on the name is not modelled")
@@ -169,15 +179,27 @@ def run_shape(shape):
                 alg, N, std = p.get_alg(), p.get_N(), p.get_standard_grid_name()
                 # re-parse the standard name alg_N
                 if isinstance(alg, str) and isinstance(N, (SR, int)):
-                    n2 = z3.Int("n_std")
-                    Engine.cur.axiom(z3.ToReal(n2) == (N.z if isinstance(N, SR) else z3.RealVal(N)))
-                    Engine.cur.axiom(n2 < MAXN)
+                    Nt = z3.simplify(N.z) if isinstance(N, SR) else z3.RealVal(N)
+                    if z3.is_rational_value(Nt) and Nt.denominator_as_long() == 1:
+                        n2 = z3.IntVal(Nt.numerator_as_long())
+                    elif z3.is_app(Nt) and Nt.decl().kind() == z3.Z3_OP_TO_REAL:
+                        n2 = Nt.arg(0)          # the very integer that was in the name: the standard name is spelled with it
+                    else:
+                        n2 = z3.Int("n_std")
+                        Engine.cur.axiom(z3.ToReal(n2) == Nt)
+                        Engine.cur.axiom(n2 < MAXN)
+                    other = "b" if role == "o" else "o"
+                    try:
+                        px = NM.GridNameParser(Name([alg, NumTok(n2, 0)]), other)
+                        cross = (px.get_alg(), px.get_N())
+                    except Exception as ex:  # noqa: BLE001 - a result of this second call, not of the parse under test
+                        cross = ex
                     try:
                         p2 = NM.GridNameParser(Name([alg, NumTok(n2, 0)]), role)
                     except Exception as e2:  # noqa: BLE001 - the re-parse failing is a result, not the outcome of the parse
-                        return alg, N, std, e2, None
-                    return alg, N, std, p2.get_alg(), p2.get_N()
-                return alg, N, std, None, None
+                        return alg, N, std, e2, None, cross
+                    return alg, N, std, p2.get_alg(), p2.get_N(), cross
+                return alg, N, std, None, None, None
 
         words = [KINDS[k] for k in kinds]
         n_num = sum(1 for w in words if w in ("<NUM>", "<0NUM>"))
@@ -195,7 +217,7 @@ def run_shape(shape):
                 acc.structural(f"only_ValueError:{tag}", ok, detail=repr(path.value), cex=dict(cexinfo, kind="exception", exc=type(path.value).__name__, model=m))
                 nviol += 0 if ok else 1
                 continue
-            alg, N, std, alg2, N2 = path.value
+            alg, N, std, alg2, N2, cross = path.value
             must_reject = n_num >= 2 or n_alg >= 2
             m = _model(path)
             acc.structural(f"rejects_two_numbers_or_two_algorithms:{tag}", not must_reject, detail=(alg, str(N)), cex=dict(cexinfo, model=m))
@@ -217,6 +239,15 @@ def run_shape(shape):
             if n_alg == 1 and not has_zero:
                 a = next(w for w in words if w in ALGS_O + ALGS_B)
                 claims.append((f"algorithm_kept:{tag}", z3.Implies(Nz > 1, z3.BoolVal(alg == a))))
+            # the standard name handed to the OTHER role afterwards (history in one process): a zero name becomes that role's zero
+            # grid, every other standard name belongs to this role only and must be rejected there
+            if ok_alg and cross is not None:
+                other = "b" if role == "o" else "o"
+                if alg.startswith("zero"):
+                    okx = isinstance(cross, tuple) and cross[0] == ("zero4D" if other == "b" else "zero3D")
+                else:
+                    okx = isinstance(cross, ValueError)
+                acc.structural(f"standard_name_in_the_other_role:{tag}", okx, detail=repr(cross), cex=dict(cexinfo, model=m, cross=True))
             acc.structural(f"reparse_same_algorithm:{tag}", alg2 == alg, detail=(alg, repr(alg2)), cex=dict(cexinfo, model=m))
             if isinstance(N2, (SR, int)):
                 N2z = N2.z if isinstance(N2, SR) else z3.RealVal(N2)
@@ -291,6 +322,26 @@ def concrete_violations(name, role):
 
 def replay(cex):
     name = concrete_name(cex["kinds"], cex.get("model"))
+    if cex.get("cross"):
+        import molgri.naming as NM
+        role = cex["role"]
+        other = "b" if role == "o" else "o"
+        try:
+            std = NM.GridNameParser(name, role).get_standard_grid_name()
+        except Exception as e:  # noqa: BLE001
+            return {"reproduced": False, "detail": f"first parse raised {e!r}"}
+        try:
+            px = NM.GridNameParser(std, other)
+            got = (px.get_alg(), px.get_N())
+        except ValueError as e:
+            got = e
+        except Exception as e:  # noqa: BLE001
+            return {"reproduced": True, "detail": f"GridNameParser({name!r}, {role!r}) then GridNameParser({std!r}, {other!r}) raised {e!r}"}
+        if std.startswith("zero"):
+            ok = isinstance(got, tuple) and got[0] == ("zero4D" if other == "b" else "zero3D") and got[1] == 1
+        else:
+            ok = isinstance(got, ValueError)
+        return {"reproduced": not ok, "detail": f"GridNameParser({name!r}, {role!r}) -> {std}; then GridNameParser({std!r}, {other!r}) -> {got!r}"}
     bad = concrete_violations(name, cex["role"])
     return {"reproduced": bool(bad), "detail": f"GridNameParser({name!r}, {cex['role']!r}): {bad}"}
 
